@@ -2470,7 +2470,7 @@ func TestVerifWireMcp(t *testing.T) {
 				step("sse.lines "+ls, ltags...)
 			}
 			// list results page by page on a real session
-			if c%4 == 0 {
+			if c%verifN(4, 10) == 0 {
 				(&pgGen{r: r, step: step}).random()
 			}
 			// ioConn
